@@ -146,7 +146,8 @@ def run(ctx):
             A[0, 1] = A[1, 0] = -2 if t % 2 == 0 else A[1, 0]
             A[0, 1] = -2
         if t % 7 == 0:
-            np.fill_diagonal(A, rng.choice([1, -1, 2]))    # diagonal is documented to be cleared
+            # diagonal is documented to be cleared, whatever it holds (inf: Fisher z of a correlation matrix)
+            np.fill_diagonal(A, rng.choice([1, -1, 2, np.inf, np.inf]))
         jobs.append(dict(fn=fn, W=A.tolist(), bin_swaps=rng.choice([0, 1, 5]),
                          wei_freq=rng.choice([0, 0.1, 0.25, 0.5, 1]), seed=rng.randrange(2 ** 31), src="random",
                          dtype=rng.choice([None, None, "int", "int32"]), layout=rng.choice([None, None, "F"])))
